@@ -12,7 +12,7 @@
      5. closure of wreachable under every swap, for ALL candidates (not only the enumerated ones).
      6. the three theorems. *)
 From Coq Require Import Sorted.
-From RS Require Import Base BaseFacts Network NetSpec NetFacts Tour TourSpec TourStmts TourFacts TourValidFacts.
+From RS Require Import SchedPeel Base BaseFacts Network NetSpec NetFacts Tour TourSpec TourStmts TourFacts TourValidFacts.
 From RS Require Import Transition Schedule SchedInv SchedObs SchedStruct SchedCostsFacts SchedUnservedFacts.
 From RS Require Import SchedListFacts SchedToursFacts SchedFormLimFacts SchedUsageFacts.
 From RS Require Import Swaps SwapsStmts SwapsFacts SwapsStmts2.
@@ -165,7 +165,7 @@ Lemma update_tours_FK s veh tours forms usage dummies ids dids uns costs p ntp r
     = Ok (veh1, tours2, forms2, usage2, dummies2, ids1, dids1, uns2, costs2) ->
   FK forms -> FK forms2.
 Proof.
-  unfold update_tours. intros H HI. cbv zeta in H.
+  intros H HI. apply update_tours_peel in H. unfold update_tours_prefix in H. cbv zeta in H.
   step_bind H.
   match goal with E : (match ntp with _ => _ end) = _ |- _ => clear E end.
   repeat step_bind H.
